@@ -4,5 +4,6 @@ package p2p
 var Registry = map[string]func([]int64){
 	"HarnessAdmission":     func([]int64) { HarnessAdmission() },
 	"HarnessBan":           func([]int64) { HarnessBan() },
+	"HarnessBanOtherHost":  func([]int64) { HarnessBanOtherHost() },
 	"HarnessPeerStateStep": func(a []int64) { HarnessPeerStateStep(int(a[0])) },
 }
